@@ -37,6 +37,22 @@ Definition full_coeffs (s : space) (supp : list nat) (c : nat -> A) : nat -> A :
 Definition full_coeffs_dt (s : space) (supp : list nat) (dt : list (trip A)) (c : nat -> A) : nat -> A :=
   spmv r0 radd rmul (map_to_full_grid s supp) (spmv r0 radd rmul dt c).
 
+(* make_localised_space (api/space/space.py:915-951): the space handed to the potential (and singular) assemblers.
+   It inherits the support, the normal multipliers, the shapeset; it numbers its dofs nshape*<position in the
+   support>+i with multipliers 1 on the support (0 elsewhere).  The potential kernels read normal multipliers,
+   support and shapeset from THIS space. *)
+Fixpoint pos_in (supp : list nat) (e : nat) (k : nat) : option nat :=
+  match supp with
+  | [] => None
+  | a :: t => if Nat.eqb a e then Some k else pos_in t e (S k)
+  end.
+Definition localised_space (s : space) (supp : list nat) : space :=
+  {| s_nshape := s_nshape s;
+     s_l2g := fun e i => match pos_in supp e 0 with Some p => Nat.add (Nat.mul (s_nshape s) p) i | None => 0%nat end;
+     s_mult := fun e i => match pos_in supp e 0 with Some _ => r1 | None => r0 end;
+     s_nmult := s_nmult s;
+     s_shape := s_shape s |}.
+
 Section Scalar.
 Variables (g : geom) (s : space) (quad : list (@qpt A)) (kern : @kernel A) (supp : list nat).
 
@@ -55,6 +71,11 @@ Definition scalar_potential (x : nat -> A) (pt : V3) : A :=
 (* DensePotentialAssembler.evaluate for an ordinary space *)
 Definition potential_eval (c : nat -> A) (pt : V3) : A := scalar_potential (full_coeffs s supp c) pt.
 End Scalar.
+
+(* what the library actually runs: coefficients mapped with the user's space, kernel run on its localised space *)
+Definition potential_eval_impl (g : geom) (s : space) (quad : list (@qpt A)) (kern : @kernel A) (supp : list nat)
+    (c : nat -> A) (pt : V3) : A :=
+  scalar_potential g (localised_space s supp) quad kern supp (full_coeffs s supp c) pt.
 
 Section Maxwell.
 Variables (g : geom) (s : space) (quad : list (@qpt A)) (kern : @kernel A) (supp : list nat).
